@@ -52,7 +52,7 @@ def plan(tier, seed):
             {'p': 2, 'q': 1, 'r': 0}, {'p': 4, 'q': 0, 'r': 0}, {'p': 1, 'q': 0, 'r': 1}, {'signature': [1, -1, 0]}, {'p': 3, 'q': 1, 'r': 0}]
     if tier == 'thorough':
         cfgs += gen.pqr_all(1, 4)
-    n_s, n_d = (120, 60) if tier == 'quick' else (6000, 3000)
+    n_s, n_d = (600, 300) if tier == 'quick' else (6000, 3000)
     U = []
     for c in cfgs:
         for rep in range(2 if tier == 'quick' else 3):
